@@ -121,7 +121,8 @@ def rule_t1(chk: Check, ix: Index):
             chk.require(ok, "T1-monotone-pos", k, w, f"write to .pos is not provably non-decreasing: {why}")
     # (iv) next_psuedo_matches returns before matching at end of line
     npm = ix.get("next_psuedo_matches")
-    first = npm.node.body[0]
+    body0 = [st for st in npm.node.body if not (isinstance(st, ast.Expr) and isinstance(st.value, ast.Constant))]
+    first = body0[0] if body0 else npm.node.body[0]
     chk.count("T1-scan-progress")
     chk.require(isinstance(first, ast.If) and "state.pos == state.max" in norm_stmt(first.test) and
                 isinstance(first.body[0], ast.Return), "T1-scan-progress", "next_psuedo_matches:eol-guard", npm.where,
